@@ -55,9 +55,9 @@ Definition touches_only (o : oid) (s s' : state) : Prop :=
   exists d, reports s' = reports s ++ d /\ Forall (names o) d.
 
 (* o renders its own docstring: it is not a "split field" (no docstring of its own, parsed_docstring put there by
-   its parent's extract_fields) *)
+   its parent's extract_fields) and it does not inherit its documentation from another object *)
 Definition renders_own_docstring (c : config) (st : state) (o : oid) : Prop :=
-  docstring c o <> None \/ pdoc st o = None.
+  docstring c o <> None \/ (pdoc st o = None /\ inherits c o = []).
 
 (* first fatal error of a list of (id, is_fatal) *)
 Definition first_fatal (errors : list (N * bool)) (e : N * bool) : Prop :=
